@@ -3,12 +3,14 @@ package harness
 import (
 	"bytes"
 	"fmt"
+
 	"io"
 	"net/http"
 	"net/url"
 	"strings"
 	"sync"
 	"time"
+	"verif/sim"
 )
 
 func init() { register("C13", worldC13) }
@@ -93,6 +95,20 @@ func worldC13(w *World) {
 		}
 	}
 	nOther := t.Range(0, 3, "nonshim")
+	// the first dial(s) of the configured backend may be refused (backend restarting)
+	refuse := t.Pick("refusedials", 5, 1, 1)
+	if refuse > 0 {
+		nOther = 0 // (ordinary requests would hit the refusals too)
+		for i := 0; i < refuse; i++ {
+			w.K.Faults = append(w.K.Faults, &sim.NetFault{ToAddr: "agenthost:8080", ConnOrd: i, Kind: sim.FaultRefuse})
+		}
+		w.Probe("backend_dial_refused")
+	}
+	// many sessions with a long poll pending on each, then ordinary requests
+	many := refuse == 0 && t.Rare(1, 8, "manysessions")
+	if many && nOther == 0 {
+		nOther = 2
+	}
 	startProxy(w)
 	wb := startWSBackend(w)
 	args := []string{"-shim-websockets", "-shim-path=shim"}
@@ -104,6 +120,28 @@ func worldC13(w *World) {
 	}
 	startAgent(w, args...)
 	var wg sync.WaitGroup
+	manyReady := make(chan struct{})
+	if many {
+		w.K.Spawn("manybrowser", func() {
+			sc := newShimClient(w, 1)
+			var ids []string
+			for i := 0; i < 40; i++ {
+				st, rep, _, err := sc.open(fmt.Sprintf("ws://example.test/sock?x=1&many=%d", i))
+				if err == nil && st == 200 && rep != nil {
+					ids = append(ids, rep.ID)
+				}
+			}
+			for _, id := range ids {
+				id := id
+				go sc.poll(id, 1)
+			}
+			time.Sleep(time.Second)
+			w.Probe("many_pending_polls")
+			close(manyReady)
+		})
+	} else {
+		close(manyReady)
+	}
 	statuses := make([]int, n)
 	replies := make([]string, n)
 	for i, b := range bodies {
@@ -136,6 +174,7 @@ func worldC13(w *World) {
 		wg.Add(1)
 		w.K.Spawn(fmt.Sprintf("other%d", i), func() {
 			defer wg.Done()
+			<-manyReady
 			cl := w.Client()
 			cl.CheckRedirect = func(*http.Request, []*http.Request) error { return http.ErrUseLastResponse }
 			req, _ := http.NewRequest("POST", "http://proxy:80"+p+"?t=other"+fmt.Sprint(i), bytes.NewReader(otherBody[i]))
@@ -199,7 +238,7 @@ func worldC13(w *World) {
 		}
 		// handshakes seen by the backend carry only path and query of some supplied URL
 		for _, s := range wb.Sessions {
-			ok := false
+			ok := many && strings.HasPrefix(s.Path, "/sock?x=1&many=")
 			for _, b := range bodies {
 				if pathQueryMatches(b, s.Path) {
 					ok = true
